@@ -89,4 +89,55 @@ def Sys.run (s : Sys) : List Ev → Option Sys
   | [] => some s
   | ev :: evs => if s.enabled ev then (s.step ev).run evs else none
 
+/-! ### concurrent `Filter` callers
+
+`Filter` sends its question on the unbuffered `fltchan` together with a reply channel of its
+own and waits on that channel; the logger goroutine answers from inside its `select` loop, so
+between taking a question and handing over the answer it does nothing else. -/
+
+structure Ask where
+  caller : Nat
+  fo : Option Nat
+  ft : Nat
+  deriving Repr, DecidableEq
+
+/-- an answer on its way: the question, what `Filter`'s two passes returned, and (ghost) the
+    entries stored when it was computed -/
+structure Answer where
+  ask : Ask
+  ans : Option (List Entry)
+  seen : List Entry
+  deriving Repr
+
+structure FSys where
+  sys : Sys
+  serving : Option Answer := none     -- the goroutine sits in `flt.resp <- its`
+  delivered : List Answer := []       -- ghost: answers received by their callers, in order
+  deriving Repr
+
+inductive FEv where
+  | log (ev : Ev)            -- a producer's `Log`, or the goroutine storing an entry
+  | ask (a : Ask)            -- `l.fltchan <- &flt{owner, itype, c}` meets `case f := <-l.fltchan`
+  | deliver                  -- `flt.resp <- its` meets the caller's `<-c`
+  deriving Repr
+
+def FSys.step (s : FSys) : FEv → Option FSys
+  | .log (.enqueue e) => if s.sys.enabled (.enqueue e) then some { s with sys := s.sys.step (.enqueue e) } else none
+  | .log .dequeue =>
+    if s.serving.isNone ∧ s.sys.enabled .dequeue then some { s with sys := s.sys.step .dequeue } else none
+  | .ask a =>
+    if s.serving.isNone then
+      some { s with serving := some { ask := a, ans := s.sys.ring.filter a.fo a.ft, seen := s.sys.processed } }
+    else none
+  | .deliver =>
+    match s.serving with
+    | some x => some { s with serving := none, delivered := s.delivered ++ [x] }
+    | none => none
+
+def FSys.run (s : FSys) : List FEv → Option FSys
+  | [] => some s
+  | ev :: evs => (s.step ev).bind (fun s' => s'.run evs)
+
+def FSys.init (n : Nat) : FSys := { sys := Sys.init n }
+
 end G9.Logger
